@@ -28,7 +28,10 @@ TOTALS = {
     "moment_matching": ("moment_matching_base", "eager_base", "normalize_base", "reflect"),
 }
 _BY_LEAVES = {v: k for k, v in TOTALS.items()}
-PARTIALS = ("A", "B", "C")
+PARTIALS = ("A", "B", "C", "D")
+LATE = "D"  # a DispatchedInterpretation created per history WITHOUT rules; the event ("reg",) registers its first rule
+# (a sentinel rule for the probe class) at any moment: before entry, while it is active, after exit.  Registration
+# never touches the stack: enter pushes exactly one frame, exit pops exactly that frame.
 SYMBOLS = ("eager", "lazy", "reflect", "normalize", "sequential", "moment_matching", "memo", "A", "B", "C", "tape")
 PERSISTENT_TAPE = "T0"  # one AdjointTape INSTANCE per history, re-entered sequentially (never while it is active)
 ALL_SYMBOLS = SYMBOLS + (PERSISTENT_TAPE,)
@@ -59,6 +62,7 @@ _NAMES = {
     "A": "userA",
     "B": "userB",
     "C": "userC",
+    "D": "userD",
 }
 
 
@@ -113,20 +117,22 @@ def kind(d):
     return _BY_LEAVES[leaves[i:]]
 
 
-def sentinel(d):
+def sentinel(d, reg=False):
     """"SENT" / "SENTC" if the sentinel rule of A / the function C answers the sentinel probe under entry d
     (whichever is innermost), else "ProbeTerm"."""
     if isinstance(d, str):
         return "ProbeTerm"
     if d[0] in ("memo", "tape"):
-        return sentinel(d[1])
+        return sentinel(d[1], reg)
     for leaf in d[1]:
+        if leaf == "D" and reg:  # D answers only once its rule has been registered (checked at probe time)
+            return "SENTD"
         if leaf == "A":
             return "SENT"
         if leaf == "C":
             return "SENTC"
         if not isinstance(leaf, str):
-            return sentinel(leaf)
+            return sentinel(leaf, reg)
     return "ProbeTerm"
 
 
@@ -152,10 +158,10 @@ def calibrated(observed):
     return table, bad
 
 
-def predict(d, classes=None):
+def predict(d, classes=None, reg=False):
     """Expected labels of the four probe terms under entry d, in PROBES order."""
     c = (classes or CLASSES)[kind(d)]
-    return (c["tt"], c["red"], c["xy"], sentinel(d))
+    return (c["tt"], c["red"], c["xy"], sentinel(d, reg))
 
 
 def subst_raises(d, table=None):
@@ -244,6 +250,6 @@ def apply_event(stack, ev):
         k = ev[1]
         assert len(stack) - k >= len(BASE)
         return (stack[: len(stack) - k] if k else stack), "pop%d" % k
-    if kind_ == "probe":
+    if kind_ in ("probe", "reg"):
         return stack, "same"
     raise ValueError(ev)
